@@ -226,7 +226,10 @@ class Skips:
 
     def take(self, res):
         """-> result, or None if the job timed out (counted)."""
-        if res is not None and "harness_error" in res and "timeout" in res["harness_error"]:
+        if res is not None and "harness_error" in res and ("timeout" in res["harness_error"]
+                                                              or "job child died" in res["harness_error"]):
+            # (a child killed by a signal - out of memory, stack overflow - is the code under test crashing the
+            # interpreter on this input; like a timeout it is skipped within the budget)
             self.timeouts += 1
             if self.timeouts > self.limit:
                 raise HarnessError(f"{self.timeouts} jobs exceeded their time limit: {res['harness_error']}")
